@@ -1,0 +1,100 @@
+//go:build verif
+// +build verif
+
+package service
+
+import (
+	"net"
+	"sync/atomic"
+)
+
+// Verification hooks, only compiled with the build tag "verif". They export
+// what an external test harness needs (server-side connection handling on a
+// caller-supplied net.Conn, the ring buffer) and let it observe events and
+// steer interleavings at a few named points. Nothing here changes behaviour
+// unless a handler is installed.
+
+// VerifHandler receives yields and events. For a yield, the calling
+// goroutine may be parked inside the handler for as long as the harness likes.
+type VerifHandler struct {
+	Yield func(point string, obj interface{})
+	Event func(point string, id uint64, arg int)
+}
+
+var verifHandler atomic.Value // *VerifHandler
+
+// VerifSetHandler installs (or, with nil, removes) the handler.
+func VerifSetHandler(h *VerifHandler) {
+	if h == nil {
+		h = &VerifHandler{}
+	}
+	verifHandler.Store(h)
+}
+
+func verifYield(point string, obj interface{}) {
+	if h, _ := verifHandler.Load().(*VerifHandler); h != nil && h.Yield != nil {
+		h.Yield(point, obj)
+	}
+}
+
+func verifEvent(point string, id uint64, arg int) {
+	if h, _ := verifHandler.Load().(*VerifHandler); h != nil && h.Event != nil {
+		h.Event(point, id, arg)
+	}
+}
+
+// VerifInit runs the server's configuration check only.
+func (svr *Server) VerifInit() error {
+	return svr.checkConfiguration()
+}
+
+// VerifServe runs the normal server-side connection handling (configuration
+// check + handleConnection) on a caller-supplied connection. It returns the
+// id of the service that was started (0 if the connection was refused).
+func (svr *Server) VerifServe(conn net.Conn) (uint64, error) {
+	if err := svr.checkConfiguration(); err != nil {
+		return 0, err
+	}
+	svc, err := svr.handleConnection(conn)
+	if svc == nil {
+		return 0, err
+	}
+	return svc.id, err
+}
+
+// VerifServiceID returns the service id behind a connected client (0 if none).
+func (cln *Client) VerifServiceID() uint64 {
+	if cln.svc == nil {
+		return 0
+	}
+	return cln.svc.id
+}
+
+// VerifBuffer exports the ring buffer type; its methods are exported already.
+type VerifBuffer = buffer
+
+// VerifNewBuffer creates a ring buffer.
+func VerifNewBuffer(size int64) (*VerifBuffer, error) {
+	return newBuffer(size)
+}
+
+// VerifLocksFree reports whether both internal mutexes of the ring are free.
+func (bf *buffer) VerifLocksFree() (pfree, cfree bool) {
+	type tryLocker interface{ TryLock() bool }
+	if l, ok := bf.pcond.L.(tryLocker); ok {
+		if pfree = l.TryLock(); pfree {
+			bf.pcond.L.Unlock()
+		}
+	}
+	if l, ok := bf.ccond.L.(tryLocker); ok {
+		if cfree = l.TryLock(); cfree {
+			bf.ccond.L.Unlock()
+		}
+	}
+	return
+}
+
+// VerifCursors returns the producer and consumer positions and the size.
+func (bf *buffer) VerifCursors() (ppos, cpos, size int64) {
+	return bf.pseq.get(), bf.cseq.get(), bf.size
+}
